@@ -362,10 +362,12 @@ def items_for(quick):
     import itertools
     items = []
     allperms = [list(p) for p in itertools.permutations([1, 2, 3])]
-    bases = [None, 'out'] if quick else [None, 'out', './o/', '/tmp/o', 'a/../o']
+    # thorough: (5 bases, 5 tails, the full menu for every dependency, all 6 permutations) ran past 50 minutes; the grid below is about
+    # 3-4x the quick one per cell and keeps every axis
+    bases = [None, 'out'] if quick else [None, 'out', './o/', '/tmp/o']
     tails = [(), (0,), (1,)] if quick else [(), (0,), (1,), (2, 0), (3, 3)]
-    menu23 = ['T.ts', 'a.ts', '../a.ts', 's/../T.ts'] if quick else MENU
-    perms = [allperms[5], allperms[3]] if quick else allperms
+    menu23 = ['T.ts', 'a.ts', '../a.ts', 's/../T.ts'] if quick else list(dict.fromkeys(['T.ts', 'a.ts', '../a.ts', 's/../T.ts'] + list(MENU)))[:5]
+    perms = [allperms[5], allperms[3]] if quick else [allperms[5], allperms[3], allperms[1]]
     for cfg in ('plain', 'esm'):
         for base in (bases if cfg == 'plain' else bases[:1]):
             for tail in (tails if (cfg == 'plain' and base is None) else tails[:2]):
